@@ -106,6 +106,9 @@ def text(rng, allow_leading_digit):
 def gen_scenario(rng, digit_after_ref=False, dup_tokens=False, errors=False):
     n = rng.randint(1, 5)
     names = ['prod', 'a', 'b', None, 'x y', 'same', 'same', 'q.z']
+    if rng.random() < 0.25:      # scatter shards with one long name: the directory name is cut to a file-system component (<= 255)
+        long = 'shard_' * 45
+        names = [long, long, long[:246], long[:243] + 'z', 'a', None]
     jobs = [{'name': rng.choice(names)} for _ in range(n)]
     toks = [token(rng) for _ in range(n + 6)]
     if dup_tokens and n >= 2:
